@@ -618,7 +618,11 @@ def gen_versions(seed, tier, focus):
     nver = ch.randint(W, "nver", 1, 4 if focus == "C10" else 6)
     ops = [["publish", ch.pick(W, ("size", v), sz[1:]), ch.randint(W, ("pat", v), 1, 1 << 30),
             # servers unavailable during this publish (C11)
-            sorted(ch.sample(W, ("down", v), range(cfg["nservers"]), ch.pick(W, ("ndown", v), [0, 0, 1, 2]))) if focus == "C11" and v else []]
+            sorted(ch.sample(W, ("down", v), range(cfg["nservers"]), ch.pick(W, ("ndown", v), [0, 0, 1, 2]))) if focus == "C11" and v else [],
+            # share numbers rolled back to an older published image on every server just before this publish (C11): the
+            # publish's own survey then sees a newer version that may no longer be recoverable
+            [[sh, ch.randrange(W, ("rb-oldv", v, sh), 8)] for sh in ch.sample(W, ("rb", v), range(cfg["n"]), ch.randint(W, ("nrb", v), 1, cfg["n"]))]
+            if focus == "C11" and v >= 2 and ch.chance(W, ("rollback", v), 0.35) else []]
            for v in range(nver)]
     muts = []
     F = "faults"
@@ -759,8 +763,25 @@ def exec_versions(case):
                         foreign_raw[shnum] = raw
         prev_down = []
         for vi, op in enumerate(pubs):
-            _, size, pat, down = op
+            _, size, pat, down = op[:4]
+            rollback = op[4] if len(op) > 4 else []
             data = pat_bytes(pat, size)
+            if rollback and images and si:
+                for (shnum, oldv) in rollback:
+                    older = images[oldv % len(images)]
+                    for s_ in g.servers:
+                        cur = s_.shares_of(si).get(shnum)
+                        if cur is None:
+                            continue
+                        old_raw = older.get((s_.name, shnum))
+                        if old_raw is None:
+                            cands = [raw for (nm, sh), raw in sorted(older.items()) if sh == shnum]
+                            if not cands:
+                                continue
+                            old_raw = dup_image_for_server(cur, cands[0])
+                        with open(s_.share_path(si, shnum), "wb") as f:
+                            f.write(old_raw)
+                        probe("rolled-back-before-publish")
             a0 = len(mon.answers)
             up_for_w = set(s.name for i, s in enumerate(g.servers) if i not in down)
             old_datas = set(d for d in (disk_state(g.servers, si).values() if si else []) if d)
@@ -795,9 +816,11 @@ def exec_versions(case):
             if wrote and max(wrote) <= observed_before_write(mon.answers[a0:], w.sim_name, max(wrote)):
                 bad("C11", "seqnum-not-above-survey", "publish %d wrote sequence number %d although its own survey had seen %d" % (
                     vi, max(wrote), observed_before_write(mon.answers[a0:], w.sim_name, max(wrote))))
-            if not this_down and not prev_down_now and newest[1] <= last_seq:
+            # (after a rollback by the servers the writer cannot know its own previous sequence number: only the
+            # survey clause above applies)
+            if not this_down and not prev_down_now and not rollback and newest[1] <= last_seq:
                 bad("C11", "seqnum-not-increased", "publish %d (all servers reachable, also during the previous publish) succeeded with sequence number %d, previous was %d" % (vi, newest[1], last_seq))
-            last_seq = max(last_seq, newest[1])
+            last_seq = newest[1] if rollback else max(last_seq, newest[1])
             published[newest] = data
             images.append({(s.name, shnum): raw for s in g.servers for shnum, raw in s.shares_of(si).items()
                            if share_version(parse_mutable_container(raw)) == newest})
